@@ -12,7 +12,7 @@ from . import spec_f2 as S
 
 PROP = 'C09'
 LEVEL = 'proof'
-SHAPES = dict(quick=dict(n=[1, 2], find_transvection_N0=[1, 2, 3]), thorough=dict(n=[1, 2, 3], find_transvection_N0=[1, 2, 3, 4]))
+SHAPES = dict(quick=dict(n=[1, 2, 3], find_transvection_N0=[1, 2, 3]), thorough=dict(n=[1, 2, 3], find_transvection_N0=[1, 2, 3, 4]))
 TRUSTED_BASE = [
     'CPython + NumPy shape/index machinery on object arrays == on typed arrays up to element arithmetic',
     'vf.bv proxy arithmetic == uint8 wrap-around / Python int arithmetic (interval-exact narrow widths)',
@@ -158,9 +158,19 @@ def _ranges(n):
     return (4 ** n - 1, 2 ** (2 * n - 1))   # ai in [0, 4^n-2], bi in [0, 2^(2n-1)-1]
 
 
+def _base(n):
+    return [y for k in range(1, n + 1) for y in (4 ** k - 1, 2 ** (2 * k - 1))]
+
+
+def _same_tuple(tt, prefix):
+    return len(tt) == len(prefix) and all(a is b for a, b in zip(tt, prefix))
+
+
 class FromThenTo:
-    """to_int_tuple(from_int_tuple(t)) == t, result symplectic; induction step at size n (recursive calls
-    replaced by the contract at size n-1: from(prefix) =: G is some symplectic matrix and to(G) = prefix)."""
+    """to_int_tuple(from_int_tuple(t)) == t, result symplectic; induction step at size n. Every tuple entry is a symbolic
+    python int in its range (so code that inspects any entry forks); the recursive calls are replaced by the contract at
+    size n-1: from(prefix) =: G is some symplectic matrix and to(G) = prefix. A recursive call on anything but the immediate
+    prefix is outside the contract (path reported as unsupported -> directed native evaluation)."""
     prop = PROP; name = 'from_int_tuple'; modules = [spf2]
     targets = ['numqi.group.spf2:from_int_tuple', 'numqi.group.spf2:to_int_tuple', 'numqi.group.spf2:find_transvection',
                'numqi.group.spf2:transvection', 'numqi.group.spf2:get_inner_product']
@@ -169,28 +179,31 @@ class FromThenTo:
     def shape_label(self, n): return f'n={n}'
 
     def inputs(self, n):
-        na, nb = _ranges(n)
-        ai, ca = B.sym_int('ai', 0, na - 1); bi, cb = B.sym_int('bi', 0, nb - 1)
-        I = dict(ai=ai, bi=bi)
-        pre = z3.And(ca, cb)
+        base = _base(n)
+        t = []; cons = []
+        for k, b in enumerate(base):
+            v, c = B.sym_int(f't{k}', 0, b - 1)
+            t.append(v); cons.append(c)
+        I = dict(t=tuple(t))
+        pre = z3.And(*cons)
         if n > 1:
             I['G'] = S.sym_bits('G', (2 * n - 2, 2 * n - 2))
             pre = z3.And(pre, S.is_symplectic(S.rows(I['G'])))
         return I, pre
 
     def call(self, I):
-        if isinstance(I['ai'], B.BV):
+        if any(isinstance(x, B.BV) for x in I['t']):
             return self._call_sym(I)
         return self.call_native(I)
 
     def _call_sym(self, I):
-        n = (I['G'].shape[0] // 2 + 1) if 'G' in I else 1
-        prefix = tuple(f'<t{k}>' for k in range(2 * n - 2))
+        t = I['t']
+        prefix = tuple(t[:-2])
         G = I.get('G')
-        t = prefix + (I['ai'], I['bi'])
 
         def from_stub(tt):
-            assert tuple(tt) == prefix, 'recursive call with an unexpected tuple'
+            if not _same_tuple(tuple(tt), prefix):
+                raise sched.Unsupported('recursive from_int_tuple call on a tuple that is not the immediate prefix (contract at n-1 does not apply)')
             return G
 
         def to_stub(mat):
@@ -203,38 +216,34 @@ class FromThenTo:
         return dict(M=M, out=out, prefix=prefix)
 
     def call_native(self, I):
-        if 'G' in I:
-            pre = tuple(int(x) for x in _real_to(np.asarray(I['G'], dtype=np.uint8)))
-        else:
-            pre = ()
-        t = pre + (int(I['ai']), int(I['bi']))
+        t = tuple(int(x) for x in I['t'])
         M = _real_from(t)
         out = _real_to(M)
-        return dict(M=M, out=tuple(out[:-2]) + (out[-2], out[-1]), prefix=pre)
+        return dict(M=M, out=tuple(out), prefix=t[:-2])
 
     def comparable(self, r):
         return [r['M'], r['out'][-2], r['out'][-1]]
 
     def post(self, I, r):
-        out = r['out']
+        out = r['out']; t = I['t']
+        pre_ok = len(out) == len(t) and all((a is b) if isinstance(b, B.BV) else (int(a) == int(b)) for a, b in zip(out[:-2], r['prefix']))
         cl = [('result_symplectic', S.is_symplectic(S.rows(r['M']))),
               ('result_entries_are_bits', S.all_bits([x for row in S.rows(r['M']) for x in row])),
-              ('roundtrip_prefix', z3.BoolVal(tuple(out[:-2]) == tuple(r['prefix']))),
-              ('roundtrip_ai', B.truth(B.cmp('eq', out[-2], I['ai']))),
-              ('roundtrip_bi', B.truth(B.cmp('eq', out[-1], I['bi'])))]
+              ('roundtrip_prefix', z3.BoolVal(bool(pre_ok)))]
+        if len(out) >= 2:
+            cl += [('roundtrip_ai', B.truth(B.cmp('eq', out[-2], t[-2]))), ('roundtrip_bi', B.truth(B.cmp('eq', out[-1], t[-1])))]
         return cl
 
     def sample(self, rng, n):
-        na, nb = _ranges(n)
-        d = dict(ai=int(rng.integers(0, na)), bi=int(rng.integers(0, nb)))
+        d = dict(t=tuple(int(rng.integers(0, b)) for b in _base(n)))
         if n > 1:
-            d['G'] = S.concrete_symplectic(rng, n - 1)
+            d['G'] = _real_from(d['t'][:-2])
         return d
 
 
 class ToThenFrom:
     """for every symplectic M: to_int_tuple(M) is in range and from_int_tuple(to_int_tuple(M)) == M
-    (induction step: recursive to(X) requires X symplectic and returns a tuple p with from(p) = X)."""
+    (induction step: recursive to(X) requires X symplectic and returns an in-range tuple p with from(p) = X)."""
     prop = PROP; name = 'to_int_tuple'; modules = [spf2]
     targets = FromThenTo.targets
     max_paths = 5000
@@ -243,7 +252,15 @@ class ToThenFrom:
 
     def inputs(self, n):
         M = S.sym_bits('M', (2 * n, 2 * n))
-        return dict(M=M), S.is_symplectic(S.rows(M))
+        I = dict(M=M)
+        cons = [S.is_symplectic(S.rows(M))]
+        if n > 1:
+            pt = []
+            for k, b in enumerate(_base(n - 1)):
+                v, c = B.sym_int(f'pt{k}', 0, b - 1)        # what the recursive to_int_tuple returns (in range, by its contract)
+                pt.append(v); cons.append(c)
+            I['pt'] = tuple(pt)
+        return I, z3.And(*cons)
 
     def call(self, I):
         if isinstance(I['M'], SymArray):
@@ -252,17 +269,20 @@ class ToThenFrom:
 
     def _call_sym(self, I):
         M = I['M']; n = M.shape[0] // 2
-        prefix = tuple(f'<t{k}>' for k in range(2 * n - 2))
+        prefix = I.get('pt', ())
         box = {}
 
         def to_stub(mat):
+            if 'X' in box:
+                raise sched.Unsupported('more than one recursive to_int_tuple call')
             sched.oblige('recursive_to_int_tuple_pre_symplectic', S.is_symplectic_cols(S.rows(mat)))
             sched.oblige('recursive_to_int_tuple_pre_bits', S.all_bits([x for row in S.rows(mat) for x in row]))
             box['X'] = mat
             return prefix
 
         def from_stub(tt):
-            assert tuple(tt) == prefix, 'recursive call with an unexpected tuple'
+            if 'X' not in box or not _same_tuple(tuple(tt), prefix):
+                raise sched.Unsupported('recursive from_int_tuple call on a tuple that is not the immediate prefix (contract at n-1 does not apply)')
             return box['X']
         with shimmed([], extra={**_EXTRA_BITS, (spf2, 'to_int_tuple'): to_stub}):
             out = _real_to(M)
@@ -281,6 +301,8 @@ class ToThenFrom:
     def post(self, I, r):
         n = I['M'].shape[0] // 2
         na, nb = _ranges(n)
+        if len(r['out']) < 2:
+            return [('tuple_length', z3.BoolVal(False))]
         ai, bi = r['out'][-2], r['out'][-1]
         return [('ai_in_range', z3.And(B.truth(B.cmp('ge', ai, 0)), B.truth(B.cmp('lt', ai, na)))),
                 ('bi_in_range', z3.And(B.truth(B.cmp('ge', bi, 0)), B.truth(B.cmp('lt', bi, nb)))),
@@ -288,7 +310,10 @@ class ToThenFrom:
                 ('from_inverts_to', S.mat_eq(S.mat_bits(r['back']), S.mat_bits(I['M'])))]
 
     def sample(self, rng, n):
-        return dict(M=S.concrete_symplectic(rng, n))
+        d = dict(M=S.concrete_symplectic(rng, n))
+        if n > 1:
+            d['pt'] = tuple(0 for _ in _base(n - 1))
+        return d
 
 
 class Inverse:
@@ -511,8 +536,8 @@ def replay(rec):
     w = rec.get('witness')
     if cname in CONTRACTS and w is not None and cname != 'rand_SpF2':
         c = CONTRACTS[cname]
-        conc = {k: (np.array(v, dtype=np.uint8) if isinstance(v, list) and k != 'hs' else
-                    ([np.array(h, dtype=np.uint8) for h in v] if k == 'hs' else v)) for k, v in w.items()}
+        conc = {k: (tuple(int(x) for x in v) if k in ('t', 'pt') else (np.array(v, dtype=np.uint8) if isinstance(v, list) and k != 'hs' else
+                    ([np.array(h, dtype=np.uint8) for h in v] if k == 'hs' else v))) for k, v in w.items()}
         ok, failed, info = native_check(c, conc)
         return (not ok), dict(failed_clauses=failed, observed=info)
     if 'exhaustive' in oid and w is not None and 't' in w:
